@@ -979,11 +979,28 @@ def run_engine(ctx, cases_path):
     ctx.crashed_cases = crashed
     if crashed:
         ctx.broke("implementation harness stopped abnormally on %d case(s)%s" % (len(crashed), ", sanitizer build" if thorough else ""),
-                  "\n".join("case #%d (exit %s): %s\n%s" % (k, rc, cases[k][:300], err[-1500:]) for k, rc, err in crashed[:3]))
+                  "\n".join("case #%d (exit %s): %s\n%s" % (k, rc, cases[k][:300], err[:1500]) for k, rc, err in crashed[:3]))
     rc, e = vc.run_to_file([m, cases_path], model)
     if rc != 0:
         ctx.broke("model driver run (exit %d)" % rc, e)
     return impl, model
+
+
+def run_keep_head(cmd, outpath, timeout=1800):
+    """Like vc.run_to_file, but keeps the beginning of stderr (where a
+    sanitizer names the error and the source line) rather than its end."""
+    import subprocess
+    with open(outpath, "w") as f:
+        try:
+            p = subprocess.run(cmd, stdout=f, stderr=subprocess.PIPE, timeout=timeout)
+        except subprocess.TimeoutExpired:
+            return 124, "timeout"
+    err = p.stderr.decode(errors="replace")
+    i = err.find("ERROR: AddressSanitizer")
+    if i < 0:
+        i = err.find("runtime error")
+    i = max(0, err.rfind("\n", 0, max(i, 0)) + 1) if i >= 0 else 0
+    return p.returncode, err[i:i + 2500]
 
 
 def run_impl_with_restarts(ctx, exe, cases, impl_path, max_restarts=25):
@@ -998,7 +1015,7 @@ def run_impl_with_restarts(ctx, exe, cases, impl_path, max_restarts=25):
     while start < len(cases):
         with open(sub, "w") as f:
             f.write("\n".join(cases[start:]) + "\n")
-        rc, err = vc.run_to_file([exe, sub, str(start)], part)
+        rc, err = run_keep_head([exe, sub, str(start)], part)
         txt = open(part, errors="replace").read()
         with open(impl_path, "a") as f:
             f.write(txt if txt.endswith("\n") or not txt else txt + "\n")
@@ -1049,7 +1066,7 @@ def check(ctx, replay=None):
             san = [l for l in err.split("\n") if "ERROR: AddressSanitizer" in l or "runtime error" in l]
             ctx.violation("C19.no_crash.%s" % kind,
                           "the implementation stopped abnormally (exit %s) on this case%s" % (rc, ": " + san[0][:200] if san else ""),
-                          cases[k], err[-1200:])
+                          cases[k], err[:1800])
     ncmp, diffs = vc.diff_outputs(impl, model)
     if diffs:
         k, a, b = diffs[0]
